@@ -42,6 +42,9 @@ type G struct {
 	spawns int
 	prio   uint32
 	recvs  int
+	// parked waiting for a lock that was held at the last probe: runnable again only after somebody released a lock
+	lockwait  bool
+	waitEpoch int
 }
 
 type Step struct {
@@ -127,6 +130,7 @@ type Sched struct {
 	pidx      int
 	pfired    int
 	avoid     *G
+	unlocks   int
 	tickPause bool
 	kinds     [16]struct {
 		k string
@@ -221,6 +225,12 @@ func (s *Sched) Yield(site, kind string) {
 		return
 	}
 	g := s.self()
+	if kind == "lockwait" {
+		g.lockwait, g.waitEpoch = true, s.unlocks
+		s.park(g, site, kind)
+		g.lockwait = false
+		return
+	}
 	if g.locked > 0 || !s.siteEnabled(site, kind) {
 		return
 	}
@@ -310,7 +320,15 @@ func (s *Sched) Panicked(v any, stack []byte) {
 }
 
 //go:norace
-func (s *Sched) Locked(d int) { s.self().locked += d }
+func (s *Sched) Locked(d int) {
+	s.self().locked += d
+	if d < 0 {
+		s.unlocks++
+	}
+}
+
+// Scheduling: this simulator decides which goroutine runs (lock acquisitions wait parked, see the instrumenter).
+func (s *Sched) Scheduling() bool { return true }
 
 func (s *Sched) Now() time.Time { return time.Unix(s.cfg.Epoch, 0).UTC() }
 func (s *Sched) Exit(code int)  { panic(ExitSentinel{code}) }
@@ -393,7 +411,7 @@ func (s *Sched) loop(done chan struct{}) (deadlock, budget bool, blocked []strin
 		s.mu.Lock()
 		n := 0
 		for i := 0; i < s.ng; i++ {
-			if g := s.gs[i]; g.parked && !g.dead {
+			if g := s.gs[i]; g.parked && !g.dead && !(g.lockwait && g.waitEpoch == s.unlocks) {
 				cand[n] = g
 				n++
 			}
